@@ -319,12 +319,11 @@ guarantees are restated for the circuits `djGates n q gs`, `bvGates n q gs`, `si
 **compiled** gate list `gs = s.qc.gates` and the qubit `q` the return name is mapped to, for every successful
 run of `compile … (some [r]) true`.
 
-Simon with a several-bit result is **not** linked: `C06_fragment_partial` / `C03_fragment_partial` are about
-a single definition (one return bit); for definition lists with several return bits only the values of the
-return qubits are proved (`C02.C02_fragment_multi`), not that the scratch qubits come back to zero, and
-`FunOracle`'s `F x` is *everything* the circuit leaves on the non-argument qubits – its period is the
-period of the compiled function only for a clean circuit.  What holds for every compilation is
-`C16_simon_any_compilation`: the guarantee with respect to the period of that leftover map. -/
+Simon with a several-bit result is not covered by *this* section (`C06_fragment_partial` /
+`C03_fragment_partial` are about a single definition, one return bit); it is linked in the section on the general
+class below (`C16_end_to_end_simon_general`, from `C03_general_partial` + `C02_general_partial`).  What holds for
+every compilation whatsoever is `C16_simon_any_compilation`: the guarantee with respect to the period of the map
+"everything the circuit leaves on the non-argument qubits". -/
 
 section EndToEnd
 open QV.Compiler (compile inXorFragment dictGet? CState initState)
